@@ -468,6 +468,11 @@ func (r *ChunkReader) tryRootNode(arity uint8, fromEnd bool) (found bool, ioErr 
 	if err := r.load(cOffset, arity); err != nil {
 		return false, err
 	}
+	// Only nodeSize(arity) bytes were loaded. If the node itself claims a
+	// different arity, valid would look at stale bytes beyond them.
+	if r.currNode.arity() != int(arity) {
+		return false, nil
+	}
 	if !r.currNode.valid() {
 		return false, nil
 	}
